@@ -72,6 +72,25 @@ MUTANTS = [
     ('m_unlockx_tail_noclear', ['C01', 'C02'], 'MCS.CLR', [(M, 'if (lock_.compare_exchange_weak(cur, cur ^ kXLock, kRelease, kRelaxed)) return;', 'if (lock_.compare_exchange_weak(cur, cur, kRelease, kRelaxed)) return;', 1)], 'X release leaves the X flag on the lock word'),
     ('m_upgrade_null_node', ['C07', 'C10'], 'C07.CONV', [(M, '  next->lock_.fetch_xor(kXMask, kRelaxed);\n  return XGuard{dest, qnode_};', '  next->lock_.fetch_xor(kXMask, kRelaxed);\n  return XGuard{dest, nullptr};', 1)], 'upgraded guard loses its queue node'),
     ('m_locksix_cas_tail', ['C11'], 'C11.TAIL', [(M, '  const auto cur = lock_.exchange(new_tail | kSIXLock, kAcquire);', '  auto cur = lock_.load(kRelaxed);\n  while (!lock_.compare_exchange_weak(cur, (cur & kSMask) ? cur : (new_tail | kSIXLock), kAcquire, kRelaxed) || (cur & kSMask)) {\n  }', 1)], 'SIX arrival retries instead of swapping the tail unconditionally: later shared requests overtake it'),
+    ('i_dtor_order', ['C15', 'C04'], 'C15.ORDER', [(I, '  id_.reset();  // expire the heartbeat before the ID can be reused\n  _id_vec[id].store(false, kRelease);', '  _id_vec[id].store(false, kRelease);\n  id_.reset();', 1)], 'ID freed before the heartbeat expires (the pinned defect D5)'),
+    ('i_free_relaxed', ['C15'], 'C15.SYNC', [(I, '_id_vec[id].store(false, kRelease);', '_id_vec[id].store(false, kRelaxed);', 1)], 'FREE relaxed'),
+    ('i_claim_check_then_store', ['C05'], 'C05.CLAIM', [(I, '} while (_id_vec[id].load(kRelaxed) || _id_vec[id].exchange(true, kAcquire));', '} while (_id_vec[id].load(kRelaxed));\n    _id_vec[id].store(true, kRelaxed);', 1)], 'claim = load, test, plain store'),
+    ('i_range_off_by_one', ['C05'], 'C05.RANGE', [(I, 'if (++id >= kMaxThreadNum) {', 'if (++id > kMaxThreadNum) {', 1)], 'probe index can equal the capacity'),
+    ('i_setid_other', ['C05'], 'C05.CLAIM', [(I, '    hb.SetID(id);', '    hb.SetID((id + 1) % kMaxThreadNum);', 1)], 'records a different ID than the one claimed'),
+    ('i_static_holder', ['C05', 'C14'], 'C05.STABLE', [(I, 'thread_local HeartBeater hb{};', 'static HeartBeater hb{};', 1)], 'holder shared by all threads'),
+    ('e_scan_skip_last', ['C04'], 'C04.SCAN', [(E, 'for (size_t i = 0; i < kMaxThreadNum; ++i) {', 'for (size_t i = 0; i < kMaxThreadNum - 1; ++i) {', 1)], 'scan misses the last slot'),
+    ('e_scan_no_cur', ['C04', 'C16', 'C20'], 'C04.SCAN', [(E, '  protected_epochs.emplace_back(cur_epoch);\n', '', 1)], 'current epoch not appended'),
+    ('e_forward_plus2', ['C16'], 'C16.STEP', [(E, 'const auto next_epoch = cur_epoch + 1;', 'const auto next_epoch = cur_epoch + 2;', 1)], 'epoch advances by two'),
+    ('e_publish_before_fill', ['C04', 'C17'], 'C04.PUBLISH', [(E, '  CollectProtectedEpochs(cur_epoch, protected_epochs);\n  RemoveOutDatedLists(protected_epochs);\n\n  // store the max/min epoch values for efficiency\n  global_epoch_.store(next_epoch, std::memory_order_release);', '  global_epoch_.store(next_epoch, std::memory_order_release);\n  CollectProtectedEpochs(cur_epoch, protected_epochs);\n  RemoveOutDatedLists(protected_epochs);\n', 1)], 'new epoch published before its list is filled'),
+    ('e_min_front', ['C16', 'C20'], 'C16.MIN', [(E, 'min_epoch_.store(protected_epochs.back(), std::memory_order_relaxed);', 'min_epoch_.store(protected_epochs.front(), std::memory_order_relaxed);', 1)], 'minimum taken from the wrong end'),
+    ('e_sort_ascending', ['C16', 'C17', 'C20'], 'C16.SORT', [(E, 'std::greater<size_t>{}', 'std::less<size_t>{}', 1)], 'ascending list'),
+    ('e_leave_zero', ['C04', 'C16'], 'C04.ENTER', [(EP, 'entered_.store(std::numeric_limits<size_t>::max(), kRelaxed);', 'entered_.store(0, kRelaxed);', 1)], 'LeaveEpoch pins epoch 0 for ever'),
+    ('e_guard_dtor_no_leave', ['C04', 'C16'], 'C04.GUARD', [(EG, 'EpochGuard::~EpochGuard()\n{\n  if (epoch_ != nullptr) {\n    epoch_->LeaveEpoch();\n  }\n}', 'EpochGuard::~EpochGuard()\n{\n}', 1)], 'destroyed guard keeps pinning'),
+    ('e_bind_no_rebind', ['C04'], 'C04.BIND', [(E, '    tls.epoch.SetGrobalEpoch(&global_epoch_);\n', '', 1)], 'slot not bound to the global epoch'),
+    ('e_lookup_current', ['C17'], 'C17.OWN', [(E, 'const auto e = guard.GetProtectedEpoch();', 'const auto e = GetCurrentEpoch();', 1)], 'list looked up by the current epoch, not the guard\'s'),
+    ('e_delete_before_unlink', ['C17', 'C20'], 'C', [(E, '      prev->next = current->next;\n      delete current;', '      delete current;\n      prev->next = current->next;', 1)], 'node used after delete'),
+    ('e_dtor_head_only', ['C20'], 'C20.WALK', [(E, '  auto *pro_next = protected_lists_;\n  while (pro_next != nullptr) {\n    auto *current = pro_next;\n    pro_next = current->next;\n    delete current;\n  }', '  delete protected_lists_;', 1)], 'destructor frees only the head'),
+    ('e_global_store_relaxed', ['C16', 'C17'], 'C16.STEP', [(E, 'global_epoch_.store(next_epoch, std::memory_order_release);', 'global_epoch_.store(next_epoch, std::memory_order_relaxed);', 1)], 'publication not a release'),
 ]
 
 REFACTORS = [
@@ -85,6 +104,9 @@ REFACTORS = [
     ('r_m_unlockx_and', ['C01', 'C12', 'C08'], [(M, 'next->lock_.fetch_xor(kXLock, kRelease)', 'next->lock_.fetch_and(~kXLock, kRelease)', 1)], 'fetch_and(~X) instead of fetch_xor(X) on the successor node'),
     ('r_m_exchange_acqrel', ['C08', 'C11'], [(M, 'lock_.exchange(new_tail | kXLock, kAcquire)', 'lock_.exchange(new_tail | kXLock, std::memory_order_acq_rel)', 1)], 'stronger order'),
     ('r_m_unlocks_pred_spelled', ['C12'], [(M, '(next->lock_.fetch_sub(kSLock, kRelease) & kLockMask) == kSLock', '((next->lock_.fetch_sub(kSLock, kRelease) - kSLock) & kLockMask) == kNoLocks', 1)], 'reclaim predicate spelled differently'),
+    ('r_i_dtor_assign_null', ['C15', 'C05', 'C14'], [(I, '  id_.reset();  // expire the heartbeat before the ID can be reused', '  id_ = nullptr;', 1)], 'id_ = nullptr instead of reset()'),
+    ('r_e_min_local', ['C16', 'C04'], [(E, '  global_epoch_.store(next_epoch, std::memory_order_release);\n  min_epoch_.store(protected_epochs.back(), std::memory_order_relaxed);', '  const auto min_e = protected_epochs.back();\n  global_epoch_.store(next_epoch, std::memory_order_release);\n  min_epoch_.store(min_e, std::memory_order_relaxed);', 1)], 'minimum read into a local first'),
+    ('r_e_seqcst', ['C16', 'C17'], [(E, 'global_epoch_.store(next_epoch, std::memory_order_release);', 'global_epoch_.store(next_epoch);', 1)], 'seq_cst store'),
 ]
 
 
@@ -138,7 +160,9 @@ def run_one(args):
         import props
         props._cache.clear()
         rep = MAIN.run_property(pid, 'quick', repo=d, quiet=True)
-        viol = [o for o in rep.obligations if o['status'] == 'violated']
+        import report as REPORT
+        known = {f['key'] for f in REPORT.load_known()[0] if f['property'] == pid}
+        viol = [o for o in rep.obligations if o['status'] == 'violated' and ('%s %s' % (o['rule'], o['key'])) not in known]
         return {'id': mid, 'pid': pid, 'status': 'violated' if viol else ('broken' if rep.broken else 'silent'),
                 'rules': sorted({o['rule'] for o in viol}), 'broken': rep.broken[:3],
                 'first': ['%s %s @%s: %s' % (o['rule'], o['key'], o['loc'].replace(d, ''), o['detail'][:200]) for o in viol[:3]]}
